@@ -103,6 +103,205 @@ def dc1(p, res):
     return n
 
 
+def _rev_range(f, flow, sym, t):
+    """`for j in (lo..hi).rev()`: the range behind the reversed iterator (the set of limbs visited is the same)"""
+    todo = [t["a"][0]]
+    hops = 0
+    while todo and hops < 8:
+        hops += 1
+        o = todo.pop()
+        for r in flow.op_roots(o):
+            if r[0] == "agg":
+                rv = f.blocks[r[1]]["s"][r[2]][2]
+                if rv.get("fields") == ["start", "end"]:
+                    return sym.operand(rv["o"][0]), sym.operand(rv["o"][1])
+                if rv.get("fields") and "iter" in rv["fields"]:
+                    todo.append(rv["o"][rv["fields"].index("iter")])
+            elif r[0] == "call":
+                t2 = f.blocks[r[1]]["t"]
+                if (f.callee_def(t2) or {}).get("n") in ("into_iter", "rev") and t2["a"]:
+                    todo.append(t2["a"][0])
+    return None
+
+
+def enc1(p, res):
+    """encoders (`VecZnx::encode_*`): the data is put on one limb and normalised in place, and the in-place steps read every limb they pass over - so every limb that a
+    normalisation step touches has been plainly written (zeroed, copied into, stored) earlier in the encoder, for every (precision limbs, object limbs) with
+    1 <= k.div_ceil(base2k) <= size().  Limb ranges of the writes and of the in-place steps are extracted per accessor site and evaluated on a grid."""
+    from .cfg import CFG, Flow
+    from .sym import Sym, Poly
+    from . import wr
+    WRITE_CALLEES = ("znx_zero_ref", "znx_zero", "fill", "copy_from_slice", "clone_from_slice", "znx_copy_ref", "znx_copy")
+    n = 0
+    for f in sorted(p.lib_fns(), key=lambda x: x.uid):
+        if f.kind == "Closure" or f.is_test() or not f.blocks or not f.uid.startswith("poulpy_hal::layouts::encoding") or not f.name.startswith("encode_"):
+            continue
+        n += 1
+        g = CFG(f)
+        flow = Flow(f)
+        vflow = Flow(f, transparent=("index_mut", "index", "deref_mut", "deref", "as_mut", "iter_mut", "into_iter", "get_mut"))
+        sym = Sym(f, flow)
+        loops = {}
+        for L in g.loops():
+            for b in sorted(L["body"]):
+                t = f.blocks[b]["t"]
+                if t and t["k"] == "Call" and (f.callee_def(t) or {}).get("n") == "next" and g.innermost_loop(b) is L:
+                    rg = wr.range_of_next(f, flow, sym, t) or _rev_range(f, flow, sym, t)
+                    loops[L["header"]] = (L, rg, Poly.atom(("call", f.uid, b, ("0",))))
+                    break
+        items = []   # (kind, lo, hi, block)   kind in write | rmw
+        unknown = 0
+        for bi, t in f.calls():
+            if (f.callee_def(t) or {}).get("n") != "at_mut" or len(t["a"]) != 3 or bi not in g.reach:
+                continue
+            J = sym.operand(t["a"][2])
+            # how is the limb used?
+            kind = None
+            for b2, t2 in f.calls():
+                nm = (f.callee_def(t2) or {}).get("n", "")
+                if any(r[0] == "call" and r[1] == bi for a in t2["a"] if a[0] in ("c", "m") for r in vflow.op_roots(a)):
+                    if "normalize" in nm:
+                        kind = "rmw"
+                    elif nm in WRITE_CALLEES and kind is None:
+                        kind = "write"
+            if kind is None:
+                for b2, blk in enumerate(f.blocks):
+                    for st in blk["s"]:
+                        if st[0] == "A" and "*" in st[1][1:] and any(r[0] == "call" and r[1] == bi for r in vflow.roots(st[1][0])):
+                            kind = kind or "write"
+            if kind is None:
+                unknown += 1
+                continue
+            L = g.innermost_loop(bi)
+            if L is not None and L["header"] in loops and loops[L["header"]][1] is not None and J == loops[L["header"]][2]:
+                lo, hi = loops[L["header"]][1]
+                items.append((kind, lo, hi, L["header"]))
+            elif L is None or not any(a[0] == "call" and (f.callee_def(f.blocks[a[2]]["t"]) or {}).get("n") == "next" for a in J.atoms()):
+                items.append((kind, J, J + Poly.const(1), bi))
+            else:
+                unknown += 1
+        if unknown or not any(k == "rmw" for k, _, _, _ in items):
+            res.undec("ENC-1", "%s: %d limb accessor(s) not classified" % (f.pretty, unknown))
+            continue
+        dom = g.dom()
+        bad = None
+        pts = 0
+        atoms = set()
+        for _, lo, hi, _ in items:
+            atoms |= set(lo.atoms()) | set(hi.atoms())
+        size_at = [a for a in atoms if a[0] == "f" and a[1] == "size"]
+        prec_at = [a for a in atoms if a[0] == "f" and a[1] == "div_ceil"]
+        if len(size_at) != 1 or len(prec_at) != 1 or len(atoms) != 2:
+            res.undec("ENC-1", "%s: limb ranges depend on more than (precision limbs, object limbs): %s" % (f.pretty, sorted(map(repr, atoms))[:4]))
+            continue
+        for A in range(1, 7):
+            for S in range(1, A + 1):
+                val = {size_at[0]: A, prec_at[0]: S}
+
+                def ev(pl):
+                    tot = 0
+                    for mono, cf_ in pl.t.items():
+                        v = cf_
+                        for a in mono:
+                            v *= val[a]
+                        tot += v
+                    return tot
+                written, read = set(), set()
+                for kind, lo, hi, blk in items:
+                    rng = set(range(max(ev(lo), 0), max(ev(hi), 0)))
+                    if kind == "write":
+                        written |= rng
+                    else:
+                        read |= rng
+                pts += 1
+                if not read <= written and bad is None:
+                    bad = {"object_limbs": A, "precision_limbs": S, "read_but_never_written": sorted(read - written)}
+        # the writes have to come first
+        rmw_blocks = [blk for k, _, _, blk in items if k == "rmw"]
+        late = [blk for k, _, _, blk in items if k == "write" and not all(blk in dom.get(rb, ()) for rb in rmw_blocks)]
+        if bad:
+            res.bad("ENC-1", f.pretty, "normalised-limb-never-written", "%s: with %d limbs of precision in an object of %d limbs the in-place normalisation reads limb(s) %s, which the encoder "
+                    "never wrote: what the receiver held there before is added into the encoded value" % (f.pretty, bad["precision_limbs"], bad["object_limbs"], bad["read_but_never_written"]),
+                    site=f.where(), detail=bad)
+        elif late:
+            res.undec("ENC-1", "%s: a write does not dominate the normalisation chain" % f.pretty)
+        else:
+            res.ok("ENC-1", {"fn": f.pretty, "items": [(k, repr(lo), repr(hi)) for k, lo, hi, _ in items], "points": pts})
+    return n
+
+
+def post1(p, res):
+    """fused normalise-and-negate (`vec_znx_big_normalize_negate`): the normalisation writes every limb of the result column, whatever the offset and the radices; the negation
+    that follows has to visit every one of them - its limb loop runs over `0..res.size` for every valuation of the sizes, radices and offset."""
+    from .cfg import CFG, Flow
+    from .sym import Sym, Poly
+    from . import wr, pwl
+    n = 0
+    for f in sorted(p.lib_fns(), key=lambda x: x.uid):
+        if f.kind == "Closure" or f.is_test() or not f.blocks or not f.uid.startswith(("poulpy_hal::api", "poulpy_cpu_ref", "poulpy_cpu_avx")) or "normalize_negate" not in f.name or "tmp_bytes" in f.name:
+            continue
+        g = CFG(f)
+        flow = Flow(f)
+        sym = Sym(f, flow)
+        negs = [bi for bi, t in f.calls() if (f.callee_def(t) or {}).get("n") in ("wrapping_neg", "neg", "znx_negate_assign", "znx_negate_assign_ref", "checked_neg")]
+        norms = [bi for bi, t in f.calls() if "normalize" in (f.callee_def(t) or {}).get("n", "") and "negate" not in (f.callee_def(t) or {}).get("n", "")]
+        if not negs or not norms:
+            continue
+        n += 1
+        # the outermost range loop around the negation
+        best = None
+        for L in g.loops():
+            if negs[0] in L["body"]:
+                for b in sorted(L["body"]):
+                    t = f.blocks[b]["t"]
+                    if t and t["k"] == "Call" and (f.callee_def(t) or {}).get("n") == "next" and g.innermost_loop(b) is L:
+                        rg = wr.range_of_next(f, flow, sym, t)
+                        if rg is not None and (best is None or len(L["body"]) > best[0]):
+                            best = (len(L["body"]), rg)
+                        break
+        if best is None:
+            res.undec("POST-1", "%s: the limb loop of the negation is not a plain range" % f.pretty)
+            continue
+        lo, hi = best[1]
+        pn = {v: k for k, v in f.param_names().items()}
+        size = [a for a in hi.atoms() if a[0] == "p" and a[2][-1:] == ("size",)] + [a for a in _all_atoms(hi) if a[0] == "f" and a[1] == "size"]
+        out_l = pn.get("res")
+        want = None
+        for a in _all_atoms(hi):
+            if (a[0] == "p" and a[2][-1:] == ("size",)) or (a[0] == "f" and a[1] == "size"):
+                if out_l is None or any(r[0] == "param" and r[1] == out_l for r in Flow(f, transparent=("to_mut", "to_ref", "deref", "deref_mut")).roots(a[1])) if a[0] == "p" else True:
+                    want = Poly.atom(a)
+                    break
+        if want is None:
+            res.undec("POST-1", "%s: the result's limb count does not occur in the loop bound %r" % (f.pretty, hi))
+            continue
+        bad = None
+        pts = 0
+        for val in pwl.valuations(count=1200, hi=12):
+            ev = pwl.Eval(p, val)
+            ev.syms[f.uid] = sym
+            try:
+                l, h, w = ev.poly(lo), ev.poly(hi), ev.poly(want)
+            except (pwl.ErrPath, ZeroDivisionError):
+                continue
+            pts += 1
+            if (l > 0 or h < w) and bad is None:
+                bad = {"loop": [l, h], "result_limbs": w}
+        if bad:
+            res.bad("POST-1", f.pretty, "negation-skips-limbs", "%s negates limbs %d..%d of a result of %d limbs (bound %r): the normalisation wrote every limb - with a negative offset also "
+                    "those below the operand's own precision - and the ones left out keep their sign" % (f.pretty, bad["loop"][0], bad["loop"][1], bad["result_limbs"], hi), site=f.where(), detail=bad)
+        elif pts < 200:
+            res.undec("POST-1", "%s: too few points" % f.pretty)
+        else:
+            res.ok("POST-1", {"fn": f.pretty, "loop": [repr(lo), repr(hi)], "points": pts})
+    return n
+
+
+def _all_atoms(pl):
+    from .rad import _deep_atoms
+    return _deep_atoms(pl)
+
+
 def run(res, tier):
     res.level = "other"
     res.explanation = ("Only the structure of the carry chains of C08 is decided, on MIR of the normalisation / shift shape functions (small and big accumulators, both families): the final "
@@ -117,6 +316,8 @@ def run(res, tier):
     res.rule("WR-1", "overwrite-type shape functions of the C08 files cover every limb of the result column")
     res.rule("WR-2", "every accessor on operand X of the C08 files uses column X_col")
     res.rule("BK-6", "AVX normalisation step kernels: (get_digit, get_carry) applications per lsh branch equal those of the *_ref twin")
+    res.rule("ENC-1", "encoders write every limb that their in-place normalisation chain reads")
+    res.rule("POST-1", "the negation of a fused normalise-and-negate visits every limb of the result")
     res.rule("DC-1", "scalar step kernels: get_carry(b, x, d) takes d = get_digit(b, x); no plain x >> b of a digit source; no computed carry is dropped")
     res.assumptions = ["get_digit / get_carry themselves compute the balanced digit / carry (digit = sign-extended low bits, carry = (x - digit) >> b): not decided",
                        "cross-radix accumulation and encoding / decoding are arithmetic and not decided"]
@@ -144,4 +345,8 @@ def run(res, tier):
             res.ok("BK-6", {"note": "AVX crate not part of this configuration"})
         nd = dc1(p, res)
         res.floor("DC-1", "scalar digit / carry kernels", nd, 60, ref_min=45)
+        ne = enc1(p, res)
+        res.floor("ENC-1", "encoders", ne, 3)
+        npo = post1(p, res)
+        res.floor("POST-1", "fused normalise-and-negate forms", npo, 1)
         res.fn_count += n1 + n2 + n6 + n_ow
